@@ -246,18 +246,23 @@ def _c19_batch(tier, seed, n, bud, sweeps=False):
         # single-pre-emption sweep: for 8 sibling pairs in both orders, op A is interrupted once, at its
         # k-th pre-emption point, by a complete op B -- every k (thorough) or every stride-th k (quick)
         info["sweeps"] = {}
-        for gran, stride in (("line", 1 if tier == "thorough" else 4), ("instruction", 1 if tier == "thorough" else 24)):
-            params = {"seed": seed, "mode": "sweep", "granularity": gran, "stride": stride, "offset": seed % stride}
+        for gran, stride, coarse in (("line", 1 if tier == "thorough" else 3, 1 if tier == "thorough" else 4),
+                                     ("instruction", 1 if tier == "thorough" else 6, 1 if tier == "thorough" else 8)):
+            params = {"seed": seed, "mode": "sweep", "granularity": gran, "stride": stride, "offset": seed, "coarse": coarse}
             eng = es.make_engine(**params)
             size = eng.sweep_size()
-            total_points = eng.sweep_size(stride=1, offset=0)
+            plan = eng.sweep_plan(gran)
             if eng.room is not None:
                 eng.room.close()
             sw, _ = core.run_batch(es.make_engine, params, size, 200, bud)
             for v in sw.violations.values():
                 v["index"] += n
-            info["sweeps"][gran] = {"pre_emption_points_total": total_points, "stride": stride, "cases": size,
-                                    "executed": sw.evaluations, "exhaustive": stride == 1 and sw.evaluations == size}
+            info["sweeps"][gran] = {"pairs_x_orders": len(plan),
+                                    "pre_emption_points_inside_construction": sum(p[3] for p in plan),
+                                    "pre_emption_points_total": sum(p[4] for p in plan),
+                                    "stride_inside_construction": stride, "stride_inside_accessors": stride * coarse,
+                                    "cases": size, "executed": sw.evaluations,
+                                    "exhaustive": stride == 1 and coarse == 1 and sw.evaluations == size}
             agg.merge(sw)
     rep = core.report("C19", engine, agg, shrink_budget=40.0, max_shrunk=5)
     if engine.room is not None:
@@ -270,7 +275,7 @@ def check_C19(tier, t0):
     import subprocess
 
     seed = core.verif_seed()
-    n = scale(2500 if tier == "quick" else 30000)  # per hash seed
+    n = scale(2000 if tier == "quick" else 30000)  # per hash seed
     bud = budget(200 if tier == "quick" else 2400)
     partial = os.environ.get("CVSSSIM_C19_PARTIAL")
     if partial:
@@ -321,7 +326,7 @@ def check_C19(tier, t0):
     c = total.counters
     extra = {
         "hash_seeds": per_seed,
-        "single_preemption_sweep": dict(info.get("sweeps", {}), what="8 sibling op pairs x both orders: the first op is interrupted once, at its "
+        "single_preemption_sweep": dict(info.get("sweeps", {}), what="13 sibling op pairs x both orders: the first op is interrupted once, at its "
                                         "k-th pre-emption point, by the complete second op, then resumes (run under PYTHONHASHSEED=0, default context)"),
         "faults_fired": dict((k, v) for k, v in c.items() if k.startswith("fault.")),
         "probes": dict((k, v) for k, v in c.items() if k.startswith("probe.")),
